@@ -573,7 +573,7 @@ def _specs(game):
 
 def _edge_specs(game):
     """charts for the input dimensions the fixed charts above hold constant (still without ambiguous ties inside one list):
-    a chart without hits; times shared ACROSS lists and boundary values; sub-millisecond and x.5 times; int-typed columns;
+    a chart without hits; a chart without holds; times shared ACROSS lists and boundary values; sub-millisecond and x.5 times; int-typed columns;
     non-default row labels on EVERY list; (osu, qua) negative and far times; (sm, o2j) the chart inside a larger set"""
     sv = game in ("osu", "qua")
     f = 1 if game == "bms" else 0
@@ -582,6 +582,9 @@ def _edge_specs(game):
     out = []
     out.append(("edge_no_hits", std_spec(game, hits=[], holds=[(0, f, 250), (1000, 2, 500), (1000, 3, 125), (3000, 1 + f, 250)], bpms=[(0, 120), (2000, 90), (4000, 180)],
                                          **({"svs": [(500, 2.0), (1500, 0.5)]} if sv else {}))))
+    # (27) the mirror image: a chart without holds, several hits per column at uneven distances (what follows a hit in its column decides full_ln)
+    out.append(("edge_no_holds", std_spec(game, hits=[(0, f), (250, f), (1000, f), (1125, f), (500, 2), (2000, 2), (2100, 2), (3000, 3), (125, 1 + f), (3500, 1 + f)], holds=[],
+                                          bpms=[(0, 120), (2000, 90), (4000, 180)], **({"svs": [(500, 2.0), (1500, 0.5)]} if sv else {}))))
     # notes at time 0, notes / hold heads / hold tails exactly on tempo changes and on SVs, an SV on the first tempo row and on a tempo change,
     # several notes at one time in different columns, a hold of length 0 (osu, qua, o2j: formats with an end TIME; in a .bms / .sm grid
     # head and end of such a hold share one cell of one lane - a tie inside one lane, which file order decides - so those get 250 ms)
